@@ -53,19 +53,33 @@ pub fn run_session(calls: &[&str]) -> String {
     let mut rt = Runtime::default();
     let mut out: Vec<String> = vec![];
     let mut held: Vec<Listing> = vec![];
+    let mut waiting_input = false;
     for call in calls {
         let c = call.as_bytes()[0];
         match c {
             b'E' => {
                 rt.enter(&str_of_hex(&call[2..]));
+                waiting_input = false;
             }
             b'X' => {
                 let n: usize = call[1..].parse().unwrap();
-                out.push(show_event(&rt.execute(n)));
+                let e = rt.execute(n);
+                waiting_input = matches!(e, Event::Input(..));
+                out.push(show_event(&e));
             }
-            b'R' => {
-                let n: usize = call[1..].parse().unwrap();
+            b'R' | b'A' => {
+                let n: usize = if c == b'R' {
+                    call[1..].parse().unwrap()
+                } else {
+                    if !waiting_input {
+                        continue;
+                    }
+                    let parts: Vec<&str> = call[1..].split(':').collect();
+                    rt.enter(&str_of_hex(parts[1]));
+                    parts[0].parse().unwrap_or(5000)
+                };
                 let mut done = false;
+                waiting_input = false;
                 for _ in 0..3000 {
                     let e = rt.execute(n);
                     if let Event::Running = e {
@@ -74,6 +88,7 @@ pub fn run_session(calls: &[&str]) -> String {
                     out.push(show_event(&e));
                     if is_blocking(&e) {
                         done = true;
+                        waiting_input = matches!(e, Event::Input(..));
                         break;
                     }
                 }
